@@ -71,6 +71,8 @@ Proof.
   - intros g p IHp [] E; try discriminate E. cbn in E. apply andb_true_iff in E as [Eg Ep].
     apply tv_eqb_eq in Eg. subst. f_equal; auto.
   - intros p IHp [] E; try discriminate E. cbn in E. f_equal; auto.
+  - intros n p IHp [] E; try discriminate E. cbn in E. apply andb_true_iff in E as [En Ep].
+    apply N.eqb_eq in En. subst. f_equal; auto.
   - intros v [] E; try discriminate E. cbn in E. apply N.eqb_eq in E. now subst.
   - intros t [] E; try discriminate E. cbn in E. apply N.eqb_eq in E. now subst.
   - intros op a IHa b IHb [] E; try discriminate E. cbn in E.
